@@ -338,8 +338,8 @@ def c17_replay(pid, path, text):
 
 
 def jobs_C18(tier, scale):
-    return [graph_job("C18", "conc", _classes(ALL8, ["int", "string"]), tier, scale, 480, 16000, "concurrent readers on a shared graph (T in {2,4,8}, 1-3 rounds, shuffled entry-point order)",
-                      config="tsan", nmin=2, nmax=7, conc=1, max_size=50)]
+    return [graph_job("C18", "conc", _classes(ALL8, ["int", "string"]), tier, scale, 1600, 32000, "concurrent readers on a shared graph (T in {2,4,8}, 1-3 rounds, shuffled entry-point order)",
+                      config="tsan", nmin=3, nmax=7, conc=1, max_size=60)]
 
 
 def jobs_C20(tier, scale):
@@ -452,7 +452,7 @@ PROPS = {
                 "target over histories and 300 cases per stream under valgrind memcheck (the only detector of uninitialised reads available: MSan has no instrumented libstdc++ here, so that clause "
                 "is sampled much more thinly). Non-trivial by the rule of the stream's own property; distinct by case text.",
                 assumptions=["libstdc++ is not instrumented: accesses inside it are judged only through its debug-mode checks"]),
-    "C18": dict(jobs=jobs_C18, min_nontrivial=dict(quick=100, thorough=2000),
+    "C18": dict(jobs=jobs_C18, min_nontrivial=dict(quick=150, thorough=3000),
                 rule="generated graphs of each of the eight classes; T in {2,4,8} threads start behind one barrier and are otherwise unsynchronised; each runs EVERY const entry point "
                 "(all observers incl. the throwing getters, vertex and edge iteration, ==/!=, copy construction and assignment, operator<<, reversal, both conversions, both subgraph extractions, "
                 "the six breadth-first searches, the path-reconstruction helpers, Dijkstra, asLabeledGraph, text and binary writers to per-thread files) in a generated order for 1-3 rounds. "
